@@ -413,13 +413,21 @@ Theorem C20_edge_reads_pre_edge_values f7 bf D d b st out :
 Proof. exact (edge_step_spec f7 bf D d b st out). Qed.
 Print Assumptions C20_edge_reads_pre_edge_values.
 
+(* clock and reset changed by one testbench command: an active edge runs the process with the new reset level *)
+Theorem C20_clock_and_reset_together f7 bf D d cb rb st out :
+  is_edge (d_pos (dom_of D d)) (nth d (s_clk st) false) cb = true ->
+  fst (dstep_run f7 bf D (TBoth d cb rb) st out) = fst (proc_run bf D d rb (s_env st) out).
+Proof. exact (both_step_edge f7 bf D d cb rb st out). Qed.
+Print Assumptions C20_clock_and_reset_together.
+
 Theorem C20_reset_change_never_emits bf D d b st out : ds_comb D = PSkip ->
   fst (dstep_run false bf D (TRst d b) st out) = Cont out.
 Proof. exact (reset_step_silent bf D d b st out). Qed.
 Print Assumptions C20_reset_change_never_emits.
 
-(* FINDING F7 (owned by C03; the C20 harness runs the model with f7 = true, i.e. faithful to the unrepaired code):
-   in an async-reset domain the rise of rst runs the sync process, so a sync Print fires with no active edge *)
+(* F7 (repaired in /repo 574e1db; the harness runs the model with f7 = false): before the repair, in an async-reset
+   domain the rise of rst ran the sync process, so a sync Print fired with no active edge.  f7 = true is that old
+   semantics, kept so that a regression is recognised exactly; it differs observably: *)
 Theorem C20_async_reset_F7_refuted :
   exists D st, d_async (dom_of D 0) = true /\ ds_comb D = PSkip /\
     fst (dstep_run false false D (TRst 0 true) st []) = Cont [] /\
